@@ -9,7 +9,7 @@ TSAN := -fsanitize=thread
 LIBINC = -I$(REPO)/Lib/structs/public -I$(REPO)/Lib/mem/public -I$(REPO)/Lib/thpool/public -I$(REPO)/Lib/core/public
 COMMON := $(wildcard harness/common/*.hpp)
 
-STRUCT_BINS := $(B)/qsl
+STRUCT_BINS := $(B)/qsl $(B)/map $(B)/bst $(B)/mem
 ALL := $(STRUCT_BINS)
 
 .PHONY: all bins lib-asan lib-tsan lib-fuzz clean FORCE
@@ -33,7 +33,7 @@ $(B)/obj/%.o: harness/%.cpp $(COMMON)
 	@mkdir -p $(dir $@)
 	$(CXX) $(CXXFLAGS) $(ASAN) $(LIBINC) -I$(B)/lib-asan/gen -c $< -o $@
 
-$(B)/qsl: $(B)/obj/structs/qsl.o $(B)/lib-asan/libmodule.a
+$(STRUCT_BINS): $(B)/%: $(B)/obj/structs/%.o $(B)/lib-asan/libmodule.a
 	$(CXX) $(ASAN) $< $(B)/lib-asan/libmodule.a -lrapidcheck -lpthread -ldl -o $@
 
 clean:
